@@ -67,8 +67,8 @@ M = [
     ("M33", "dagrt/codegen/utils.py", "            if next_len < width or (not has_next_word and next_len == width):",
      "            if next_len <= width or (not has_next_word and next_len == width):", ["C20"]),
     ("M34", "dagrt/codegen/python.py", "    line += \" \" * (width - 1 - len(line))\n    line += \"\\\\\"", "    line += \" \" * (width - len(line))\n    line += \"\\\\\"", ["C20"]),
-    ("M35", "dagrt/transform.py", "                phase1.statements, phase2.statements,\n                should_disambiguate_name)",
-     "                phase1.statements, phase2.statements,\n                lambda name: False)", ["C16"]),
+    ("M35", "dagrt/transform.py", "                    should_disambiguate_name),\n                should_disambiguate_name)",
+     "                    should_disambiguate_name),\n                lambda name: False)", ["C16"]),
     ("M36", "dagrt/codegen/fortran.py", "        for identifier, sym_kind in sorted(sym_table.items()):\n            self.emit_variable_deinit(identifier, sym_kind)\n\n        # }}}\n\n        self.emit_trace(\"leave",
      "        # }}}\n\n        self.emit_trace(\"leave", ["C12"]),
 ]
